@@ -159,6 +159,14 @@ def rule_node_edit(ctx, F):
             ctx.ok("W1", "ts_node_edit:via-ts_point_edit", "the node's start is mapped by ts_point_edit and stored back as byte/row/column")
         else:
             ctx.bad("W1", "ts_node_edit:via-ts_point_edit", "ts_node_edit no longer maps the node start through ts_point_edit into context[0..2]")
+        # …and on every path: the only positions the mapping leaves alone are those strictly before the edit's start
+        untouched = [("start_byte < edit->start_byte", True), ("ts_node_start_byte(*self) < edit->start_byte", True),
+                     ("start_byte >= edit->start_byte", False), ("ts_node_start_byte(*self) >= edit->start_byte", False)]
+        for what, pat in (("maps the start through ts_point_edit", "ts_point_edit(&start_point, &start_byte, edit)"), ("stores the mapped byte", "self->context[0] = start_byte"),
+                          ("stores the mapped row", "self->context[1] = start_point.row"), ("stores the mapped column", "self->context[2] = start_point.column")):
+            pts = [pt for pt, n in find(fn, pat)]
+            if pts:
+                ctx.established_at_exit("W1", "ts_node_edit:always:" + what, fn, pts, untouched, "ts_node_edit %s unless the node starts strictly before the edit" % what)
     fn = ctx.need_fn(F, "ts_point_edit", "W1")
     if fn:
         shift = [pt for pt, n in find(fn, "start_byte = edit->new_end_byte + (start_byte - edit->old_end_byte)")]
